@@ -20,6 +20,8 @@ import Klev.Gen.Facts
 import Driver.Bytes
 import Driver.NotifyDrv
 import Driver.BlockDrv
+import Driver.SchedDrv
+import Driver.FreeDrv
 open Klev Klev.Proto
 
 structure Side where
@@ -63,6 +65,10 @@ structure DState where
   mh   : MhState := {}
   nt   : DNotify.NtState := {}
   bl   : DBlock.BlState := {}
+  sc   : List DSched.Call := []      -- the calls of the current window (C08)
+  fr   : Array DFree.Call := #[]     -- the calls of the current free-running history (C08)
+  frFinal : List String := []
+  skip : Bool := false               -- the rest of this history is not judged (the model lost the state)
   dmg  : Option Dmg := none          -- the damage applied to the copy being read (C14)
   blPre : Option Side := none        -- the log as it was when the blocking log was closed
   crashPre : Spec := ⟨[], 0⟩          -- L0 state before the operation in flight
@@ -572,8 +578,9 @@ def processLine (st : DState) (raw : String) : DState :=
   if line = "" then st
   else if line.startsWith "#" then
     if line.startsWith "# hist" then
-      { st with main := {}, bak := {}, hists := st.hists + 1, ackW := 0, autosync := false, crashArmed := false, bl := {}, blPre := none, dmg := none }
+      { st with main := {}, bak := {}, hists := st.hists + 1, ackW := 0, autosync := false, crashArmed := false, bl := {}, blPre := none, dmg := none, sc := [], skip := false, fr := #[], frFinal := [] }
     else st
+  else if st.skip then st
   else
     match line.splitOn " => " with
     | [lhs, "err hang"] =>
@@ -619,6 +626,73 @@ def processLine (st : DState) (raw : String) : DState :=
           let vs := judgeLoss st.main.spec st.ackW implToks
           let out := vs.foldl (fun o v => o.push s!"VIOL {st.line} {v} {lhs} w={st.ackW} impl={(String.intercalate " " implToks).take 300}") st.out
           { st with out := out, viols := st.viols + vs.length, counts := bump st.counts "loss.img" }
+        else
+        if op0 = "fr.open" then { st with counts := bump st.counts "fr.open" }
+        else if op0 = "fr.call" then
+          let (mt, opT) := (restOps.takeWhile (· ≠ "::"), (restOps.dropWhile (· ≠ "::")).drop 1)
+          let c : DFree.Call := { g := (optInt mt "g" 0).toNat, inv := optInt mt "inv" 0, ret := optInt mt "ret" 0, op := opT, impl := implToks }
+          let cls := match implToks with | "ok" :: _ => "ok" | "err" :: x :: _ => "err." ++ x | _ => "?"
+          if implToks = ["err", "hang"] then
+            { st with viols := st.viols + 1, out := st.out.push s!"VIOL {st.line} Terminates {lhs} impl=err hang" }
+          else { st with fr := st.fr.push c, counts := bump st.counts ("fr." ++ (opT.headD "?") ++ ":" ++ cls) }
+        else if op0 = "fr.end" then { st with frFinal := implToks }
+        else if op0 = "fr.check" then
+          let vs := DFree.judge st.fr.toList st.frFinal (String.intercalate " " implToks)
+          -- one line per relation (the first instance), with the count
+          let rels := vs.foldl (fun (acc : List (String × String × Nat)) (v : String × String) =>
+            if acc.any (fun a => a.1 == v.1) then acc.map (fun a => if a.1 == v.1 then (a.1, a.2.1, a.2.2 + 1) else a)
+            else acc ++ [(v.1, v.2, 1)]) []
+          let out := rels.foldl (fun o r => o.push s!"VIOL {st.line} {r.1} fr.check x{r.2.2} {r.2.1}") st.out
+          { st with out := out, viols := st.viols + rels.length, fr := #[], frFinal := [],
+                    counts := bump st.counts ("fr.check:" ++ (if rels.isEmpty then "ok" else "viol")) }
+        else
+        if op0 = "sc.call" then
+          -- sc.call id=H inv=1 ret=9 [at=… reached=…] [blocked=…] :: <op …> => <result>
+          let (mt, opT) := (restOps.takeWhile (· ≠ "::"), (restOps.dropWhile (· ≠ "::")).drop 1)
+          let point := ((mt.find? (·.startsWith "at=")).map (fun t => (t.drop 3).toString)).getD ""
+          let c : DSched.Call := { id := ((mt.find? (·.startsWith "id=")).map (fun t => (t.drop 3).toString)).getD "?",
+                                   inv := optInt mt "inv" 0, ret := optInt mt "ret" 0, op := opT, impl := implToks,
+                                   point := point, reached := optBool mt "reached" }
+          let key := if point = "" then "sc.mid:" ++ (opT.headD "?") ++ (if optBool mt "blocked" then ":blocked" else "")
+                     else "sc.held:" ++ point ++ (if c.reached then "" else ":notreached")
+          if implToks = ["err", "hang"] then
+            { st with viols := st.viols + 1, out := st.out.push s!"VIOL {st.line} Terminates {lhs} impl=err hang", counts := bump st.counts key }
+          else { st with sc := st.sc ++ [c], counts := bump st.counts key }
+        else if op0 = "sc.judge" then
+          let calls := st.sc
+          -- one sequential run of the model over an order; `none` when some result differs
+          let runOrder := fun (p : List DSched.Call) =>
+            p.foldl (fun (acc : Option Side) (c : DSched.Call) =>
+              match acc with
+              | none => none
+              | some sd =>
+                let implTxt := String.intercalate " " c.impl
+                if c.op.head? == some "stat" then some sd      -- Stat is excepted (it may count a batch still being appended)
+                else
+                  let h := handle sd c.op c.impl
+                  if h.model == implTxt && h.viols.isEmpty then some { h.side with fsVers := none }
+                  else none) (some st.main)
+          let orders := (DSched.perms calls).filter DSched.respectsTime
+          let implTxt := String.intercalate " " implToks
+          -- an order explains the window when every result is the model's and the directory ends up as listed
+          let layoutOK := fun (sd : Side) => (handle sd ["fsobs"] implToks).model == implTxt
+          let found := orders.findSome? (fun p => (runOrder p).bind (fun sd => if layoutOK sd then some sd else none))
+          let foundNoLayout := orders.findSome? runOrder
+          match found, foundNoLayout with
+          | some sd', _ => { st with main := sd', sc := [], counts := bump st.counts ("sc.judge:" ++ toString calls.length) }
+          | none, some sd' =>
+            -- the results are those of a sequential order, but the files are laid out as under no such order:
+            -- the model does not follow the code here (not an L0 violation)
+            { st with sc := [], diffs := st.diffs + 1, main := { sd' with msync := false }, skip := true,
+                      out := st.out.push s!"DIFF {st.line} sc.judge layout impl={implTxt} model={(handle sd' ["fsobs"] implToks).model}",
+                      counts := bump st.counts "sc.judge:layout" }
+          | none, none =>
+            -- report against the order "as invoked"
+            let desc := String.intercalate " | " (calls.map (fun c => s!"{c.id}[{c.inv},{c.ret}] {String.intercalate " " c.op} => {(String.intercalate " " c.impl).take 160}"))
+            let models := String.intercalate " | " (calls.map (fun c => s!"{c.id}: {(handle st.main c.op c.impl).model.take 160}"))
+            { st with sc := [], viols := st.viols + 1, main := { st.main with msync := false }, skip := true,
+                      out := st.out.push s!"VIOL {st.line} NotLinearizable sc.judge calls={desc} model-from-prestate={models}",
+                      counts := bump st.counts "sc.judge:none" }
         else
         if op0.startsWith "dr." then
           let implTxt := String.intercalate " " implToks
